@@ -525,8 +525,14 @@ Theorem refused_update_rewrites_values_refuted :
     get_pvs (B "c") (s_pvs (fst (run k init cs))) = [(B "/z", pv1 1 1)].
 Proof. exists CfgV2, f08_history. vm_compute. repeat split. Qed.
 
-(* the v3 configuration store: one Create with two paths stores the same value under both *)
-Theorem v3_values_aliased_refuted :
+(* the v3 configuration store as it is now (every iteration works on its own copy of the path value, /repo 2aad659):
+   oracle [] - each written path receives its own value, exactly as in the v2 store *)
+Lemma v3_values_own_copy : forall vals m, store_vals_v3 [] vals m = store_vals vals m.
+Proof. intros. reflexivity. Qed.
+
+(* the v3 configuration store BEFORE 2aad659 (shared loop variable, oracle = the path visited last): one Create with
+   two paths stores the same value under both *)
+Theorem v3_values_aliased_before_repair :
   exists o, o_vals o = Some [(B "/a", pv1 5 1); (B "/c", pv1 48 3)] /\
     snd (fst (fst (step CfgV3 OCreate o init))) = COk /\
     get_pvs (o_key o) (s_pvs (fst (fst (fst (step CfgV3 OCreate o init))))) = [(B "/a", pv1 5 1); (B "/c", pv1 5 1)].
